@@ -22,7 +22,7 @@ ASSUMPTIONS = [
     'parameterised haze: layers whose centre pressure lies in the window carry Q_ext(nu) pi a^2 chi with Q_ext = 5/(Q x^-4 + x^0.2), x = 2 pi a / lambda; layers wholly outside carry 0; for an inverted pair only the outside clause is judged',
     'cloud deck: only the transit geometry is judged (emission indexes per-layer opacities differently)',
 ]
-REQUIRED = {'kind:clouds': 0.2, 'kind:flat': 0.2, 'kind:lee': 0.2, 'bound:unset': 0.08, 'window:inside': 0.04}
+REQUIRED = {'pressure:integer-array': 0.1, 'cloud-range-moved:deck-inside': 0.02, 'kind:clouds': 0.2, 'kind:flat': 0.2, 'kind:lee': 0.2, 'bound:unset': 0.08, 'window:inside': 0.04}
 # coverage-guided extra (thorough tier): pure-Python taurex modules on this property's path, instrumented by atheris
 FUZZ = {'include': ['taurex.contributions.simpleclouds', 'taurex.contributions.flatmie', 'taurex.contributions.leemie'], 'runs': 12000, 'workers': 4}
 
@@ -45,6 +45,7 @@ def _case(draw, kind=None):
         c['where'] = draw(st.sampled_from(['inside', 'inside', 'on-layer', 'above-top', 'below-bottom']))
         c['frac'] = draw(st.floats(0.02, 0.98))
         c['move'] = draw(st.floats(2.0, 1000.0))
+        c['range_move'] = [10.0 ** draw(st.floats(-0.5, 2.0)), 10.0 ** draw(st.floats(-2.0, 0.5))]
     else:
         c['top'] = draw(_bound())
         c['bottom'] = draw(_bound())
@@ -54,6 +55,8 @@ def _case(draw, kind=None):
         c['lee_mix'] = 10.0 ** draw(st.floats(-16.0, -6.0))
         c['range_move'] = [10.0 ** draw(st.floats(-0.5, 2.0)), 10.0 ** draw(st.floats(-2.0, 0.5))]
     c['world'] = draw(S.world(layers=(2, 40), nwn=(2, 8), max_active=2, extras=(), mags=['transparent', 'mixed']))
+    # the layer pressures handed over as an array profile of whole-number pascals in an integer array (typed-in values)
+    c['pressure_form'] = draw(S.pick(['simple', 'int-array', 'simple', 'simple', 'int-array']))
     return c
 
 
@@ -82,8 +85,21 @@ def check(case):
     kind = case['kind']
     out.cls('kind:' + kind)
     kw = {'new_path_method': case['new_path']}
+    def int_pressures(Wx):
+        """replace the log-spaced profile by an array profile holding the same layer pressures rounded to whole pascals"""
+        from taurex.data.profiles.pressure.arraypressure import ArrayPressureProfile
+        if case.get('pressure_form') != 'int-array' or w['nlayers'] < 2:
+            return False
+        lv = np.logspace(math.log10(Wx.pmax), math.log10(Wx.pmin), w['nlayers'] + 1)
+        pi_ = np.round(np.sqrt(lv[:-1] * lv[1:]))
+        if pi_.min() < 1 or not np.all(np.diff(pi_) < 0):
+            return False
+        Wx.pressure = ArrayPressureProfile(pi_.astype(np.int64))
+        return True
     try:
         W = cut(out, 'build-world', synth.build_world, w)
+        if int_pressures(W):
+            out.cls('pressure:integer-array')
         lo, hi = math.log10(W.pmin), math.log10(W.pmax)
         base = cut(out, 'build-model', synth.make_model, W, 'transmission', synth.make_contributions(W, ['Absorption']), **kw)
         with np.errstate(all='ignore'):
@@ -114,6 +130,7 @@ def check(case):
             contrib = LeeMieContribution(lee_mie_radius=case['radius'], lee_mie_q=case['q'],
                                          lee_mie_mix_ratio=case['lee_mix'], lee_mie_bottomP=bot, lee_mie_topP=top)
         W2 = cut(out, 'build-world', synth.build_world, w)
+        int_pressures(W2)
         m = cut(out, 'build-model', synth.make_model, W2, 'transmission',
                 synth.make_contributions(W2, ['Absorption']) + [contrib], **kw)
         with np.errstate(all='ignore'):
@@ -165,6 +182,27 @@ def check(case):
                     out.fail('cloud-moved@%s' % ('deeper' if fct > 1 else 'higher'),
                              'after moving the cloud top to %r Pa the opaque layers are not exactly those at or below it' % pnow)
                     break
+            # ... and after the pressure range of the SAME model was moved (same layer count, same cloud-top pressure):
+            # the opaque layers are those of the grid as it now is
+            mv = case.get('range_move', [30.0, 10.0])
+            if 'atm_max_pressure' not in m.fittingParameters:
+                return out                      # an array profile has no range to move
+            new_max, new_min = float(m['atm_max_pressure']) * mv[0], float(m['atm_min_pressure']) * mv[1]
+            if new_max >= 3.0 * new_min:
+                out.applies('cloud-range-moved')
+                m['atm_max_pressure'] = new_max
+                m['atm_min_pressure'] = new_min
+                with np.errstate(all='ignore'):
+                    rr = cut(out, 'model@range-moved', m.model)
+                Pn = np.array(m.pressureProfile, dtype=float, copy=True)
+                insn = Pn >= contrib.cloudsPressure
+                sgn = np.asarray(contrib.sigma_xsec, dtype=float)
+                tn = np.asarray(rr[2], dtype=float)
+                if sgn.shape != (nl, len(wn)) or not np.all(np.isposinf(sgn[insn])) or not np.all(sgn[~insn] == 0.0) or not np.all(tn[insn] == 0.0):
+                    out.fail('cloud-range-moved', 'after moving the pressure range to [%r, %r] Pa the opaque layers are not those at or below %r Pa'
+                             % (new_min, new_max, contrib.cloudsPressure))
+                elif 0 < insn.sum() < nl:
+                    out.cls('cloud-range-moved:deck-inside')
         except CutError:
             pass
         return out
@@ -250,7 +288,9 @@ def check(case):
                          'a layer wholly inside the window carries %s, declared %r' % (sig[full, 0][:3], mix))
         elif np.any(overlapping):
             out.applies('flat-magnitude')
-            l = int(np.argmax(ov))
+            # equally thick layers: the one overlapping most; otherwise (array profiles) the one with the largest share of
+            # itself inside the window -- either way the strongest layer carries the declared value and none carries more
+            l = int(np.argmax(ov)) if np.ptp(np.abs(np.diff(np.log10(Lv)))) <= 1e-9 * np.max(np.abs(np.diff(np.log10(Lv)))) else int(np.argmax(sig[:, 0]))
             if not close(sig[l, 0], mix, rtol=1e-9):
                 out.fail(('flat-magnitude@largest-overlap') + sfx, 'layer of largest overlap carries %r, declared %r' % (sig[l, 0], mix))
         partial = overlapping & ~full
@@ -263,6 +303,8 @@ def check(case):
     out.applies('haze-range-moved')
     try:
         mv = case.get('range_move', [30.0, 10.0])
+        if 'atm_max_pressure' not in m.fittingParameters:
+            raise CutError('an array profile has no range to move')
         new_max, new_min = float(m['atm_max_pressure']) * mv[0], float(m['atm_min_pressure']) * mv[1]
         if new_max < 3.0 * new_min:
             raise CutError('moved range would collapse')        # a thin atmosphere moved onto itself: no legal grid, no verdict
